@@ -2,6 +2,7 @@
 from __future__ import annotations
 
 import itertools
+import time
 
 import numpy as np
 
@@ -399,6 +400,229 @@ def degenerate_probe(rec, sc, phi, kind, chk=None, bad=None):
     return msgs
 
 
+# --------------------------------------------------------------------------
+# interleaved histories of INDEPENDENT minerals that share their evaluation points (round 7)
+# --------------------------------------------------------------------------
+# The decoys of alias_probe / the minerals of bulk_probe either follow their own pathline (MT.build: x(t) = v t with v drawn per
+# flow seed) or share ONE velocity-gradient callable (update_all), and consecutive calls of different minerals never start where
+# the previous call ended.  State kept by the library between calls and keyed on WHERE / WHEN the right-hand side was evaluated
+# (not on which mineral / callable / params asked) is invisible to them: it needs several minerals -- or one mineral whose callable
+# is replaced -- evaluated at EXACTLY the same (t, x) with different velocity gradients there.  This family: J minerals (same or
+# different phase, own fabric / regime / params / fraction / assemblage order / texture / flow family and rate) on ONE pathline
+# (stationary point, the origin, one position array object handed out on every call, a common moving pathline; control: distinct
+# positions) stepped over ONE time grid (exact binary steps; starting at 0, at a negative time, at a positive one), the call
+# sequences merged in several orders.  Oracle = the property text: every mineral of every merged order is bit-identical (all stored
+# snapshots, every returned F) to the identically built mineral updated alone, the caller's arguments are untouched.
+POINT_FAMILIES = ("stationary", "origin", "shared-array", "shared-pathline", "distinct")
+COINCIDENT_POINTS = POINT_FAMILIES[:4]
+SCHEDULES = ("round-robin", "reverse-round-robin", "random-merge", "spaced")     # + "alone": the reference
+T_STARTS = ("zero", "negative", "positive")
+IL_RATES = (1.0, -1.5, 0.5, 3.0, -4.0, 2.0)      # strain-rate scales of the minerals' flows (negative: the reversed flow)
+IL_FLOWS = ["simple", "pure", "axisym", "general", "trace", "time", "position", "shared"]
+
+
+def _il_flow(sc):
+    """the velocity-gradient callable MT.build gives this scenario (same PRNG stream)"""
+    return MT.make_L(np.random.default_rng(sc.get("flow_seed", sc["seed"] + 1)), sc["lkind"], scale=sc.get("rate", 1.0))[0]
+
+
+def _il_alt_flow(a):
+    return MT.make_L(np.random.default_rng(a["flow_seed"]), a["lkind"], scale=a["rate"])[0]
+
+
+def _il_position(case):
+    """j -> get_position callable of mineral j (the SAME points for every mineral unless the family is the control)"""
+    x0, v = np.array(case["x0"], dtype=float), np.array(case["v"], dtype=float)
+    fam = case["points"]
+    if fam == "shared-array":
+        buf = x0.copy()
+        return (lambda j: (lambda t: buf)), buf
+    if fam == "shared-pathline":
+        return (lambda j: (lambda t: x0 + v * t)), None
+    if fam == "distinct":
+        return (lambda j: (lambda t, j=j: x0 + float(j) * v)), None
+    return (lambda j: (lambda t: x0.copy())), None          # stationary / origin
+
+
+def interleave_case(rng, points, J, K, t_start, replaced=(), same_phase=None):
+    """One history family (JSON-able): J minerals x K steps on shared evaluation points.  `replaced`: indices of the minerals
+    whose velocity-gradient callable is REPLACED by another one on every odd step."""
+    minerals, scales = [], []
+    first_phase = int(rng.integers(2))
+    for j in range(J):
+        ph = first_phase if (j == 0 or same_phase) else ((1 - first_phase) if same_phase is False and j == 1 else int(rng.integers(2)))
+        pair = (0, int(rng.integers(0, 5))) if ph == 0 else (1, 5)
+        sc = MT.scenario(rng, regime=int((4, 6)[int(rng.integers(2))]), pair=pair, n=int(rng.integers(3, 10)), nupd=K,
+                         lkind=IL_FLOWS[int(rng.integers(len(IL_FLOWS)))], tkind=TEX[int(rng.integers(len(TEX)))])
+        sc["rate"] = float(IL_RATES[(j + int(rng.integers(len(IL_RATES)))) % len(IL_RATES)])
+        mn = dict(sc=sc, phi=float((PHI_GRID + [float(rng.uniform(0, 1))])[int(rng.integers(6))]), own_first=bool(rng.integers(2)))
+        if j in replaced:
+            mn["alt"] = dict(lkind=IL_FLOWS[int(rng.integers(5))], flow_seed=int(rng.integers(0, 2**31 - 1)),
+                             rate=float(-sc["rate"] * (1.5, 0.5, 2.0)[int(rng.integers(3))]))
+        minerals.append(mn)
+    x0 = np.zeros(3) if points == "origin" else rng.normal(size=3)
+    v = rng.normal(size=3)
+    case = dict(points=points, x0=[float(c) for c in x0], v=[float(c) for c in v], nsteps=int(K), t_start_kind=t_start,
+                minerals=minerals, schedule_seed=int(rng.integers(0, 2**31 - 1)), strain=float(rng.uniform(0.4, 0.8)))
+    # one time grid for all: the fastest flow accumulates `strain`; dt is a power of two so that every t_start + k dt is exact
+    pos, _ = _il_position(case)
+    smax = 0.0
+    for j, mn in enumerate(minerals):
+        for get_L in [_il_flow(mn["sc"])] + ([_il_alt_flow(mn["alt"])] if mn.get("alt") else []):
+            L = np.asarray(get_L(0.0, pos(j)(0.0)), dtype=float)
+            smax = max(smax, float(np.abs(np.linalg.eigvalsh((L + L.T) / 2)).max()))
+    dt = 2.0 ** np.floor(np.log2(case["strain"] / (K * smax))) if smax > 0 else 0.125
+    case["dt"] = float(dt)
+    case["t_start"] = float({"zero": 0.0, "negative": -K * dt, "positive": 5 * dt}[t_start])
+    return case
+
+
+def il_decode(case):
+    """a case that went through JSON (replay file): tuples back"""
+    for mn in case["minerals"]:
+        mn["sc"]["pair"] = tuple(mn["sc"]["pair"])
+    return case
+
+
+def il_schedule(case, name):
+    """process order of the update calls: (j, k) = step k of mineral j; "spacer" = an unrelated mineral elsewhere"""
+    J, K = len(case["minerals"]), case["nsteps"]
+    alone = [(j, k) for j in range(J) for k in range(K)]
+    if name == "alone":
+        return alone
+    if name == "round-robin":            # A[t0,t1], B[t0,t1], A[t1,t2], B[t1,t2], ...
+        return [(j, k) for k in range(K) for j in range(J)]
+    if name == "reverse-round-robin":
+        return [(j, k) for k in range(K) for j in reversed(range(J))]
+    if name == "random-merge":           # a random merge that keeps every mineral's own order
+        done = [0] * J
+        out = []
+        for j in np.random.default_rng(case["schedule_seed"]).permutation(np.repeat(np.arange(J), K)):
+            out.append((int(j), done[int(j)]))
+            done[int(j)] += 1
+        return out
+    if name == "spaced":                 # every mineral alone, an unrelated update (other place, other time) between any two calls
+        out = []
+        for it in alone:
+            out += [it, "spacer"]
+        return out
+    raise ValueError(name)
+
+
+def il_run(case, name, stats=None):
+    """build every mineral of the case afresh and make the calls in the order of schedule `name`"""
+    import argguard as AG
+    built = []
+    for mn in case["minerals"]:
+        sc = mn["sc"]
+        own, other = own_other(sc)
+        phi = mn["phi"]
+        ass, frs = ((own, other), (phi, 1.0 - phi)) if mn["own_first"] else ((other, own), (1.0 - phi, phi))
+        m, params, get_L, _, _ = MT.build(sc, ass, frs)
+        built.append((m, params, [get_L] + ([_il_alt_flow(mn["alt"])] if mn.get("alt") else [])))
+    pos, buf = _il_position(case)
+    buf_keep = None if buf is None else buf.copy()
+    K = case["nsteps"]
+    times = [case["t_start"] + k * case["dt"] for k in range(K + 1)]
+    F = [np.eye(3) for _ in built]
+    out = dict(minerals=[b[0] for b in built], F_hist=[[] for _ in built], faults=[], error=None)
+    spacer = None
+    last = None          # where the previous call of the process ended: (t, position bytes, velocity gradient there)
+    for it in il_schedule(case, name):
+        if it == "spacer":
+            if spacer is None:
+                ssc = dict(case["minerals"][0]["sc"], n=3, seed=case["schedule_seed"], lkind="general", rate=1.0)
+                spacer = MT.build(ssc)
+            sm, sparams, sL, sx, _ = spacer
+            try:
+                sm.update_orientations(sparams, np.eye(3), sL, (times[0] - 2.75 * case["dt"], times[0] - 2.5 * case["dt"],
+                                                               lambda t: np.array([7.5, -3.25, 1.125])))
+            except Exception as e:  # noqa: BLE001
+                out["error"] = f"[{name}] spacer update raised {type(e).__name__}: {e}"
+                return out
+            last = None
+            continue
+        j, k = it
+        m, params, Ls = built[j]
+        get_L, get_x = Ls[k % len(Ls)], pos(j)
+        if stats is not None:
+            xs = np.asarray(get_x(times[k]), dtype=float)
+            here = (times[k], xs.tobytes(), np.asarray(get_L(times[k], xs), dtype=float).tobytes())
+            if last is not None and last[:2] == here[:2] and last[2] != here[2]:
+                # the situation the family is about: this call starts exactly where the previous call of the process ended,
+                # with another velocity gradient there
+                stats["calls starting where the previous call ended, other gradient"] = \
+                    stats.get("calls starting where the previous call ended, other gradient", 0) + 1
+            stats["update calls"] = stats.get("update calls", 0) + 1
+        try:
+            Fn, faults = AG.guarded(m.update_orientations, (params, F[j], get_L, (times[k], times[k + 1], get_x)))
+        except Exception as e:  # noqa: BLE001
+            out["error"] = f"[{name}] mineral #{j}, step {k}: update raised {type(e).__name__}: {e}"
+            return out
+        out["faults"] += [f"[{name}] mineral #{j}, step {k}: argument of update_orientations " + f for f in faults]
+        if stats is not None:
+            xe = np.asarray(get_x(times[k + 1]), dtype=float)
+            last = (times[k + 1], xe.tobytes(), np.asarray(get_L(times[k + 1], xe), dtype=float).tobytes())
+        F[j] = Fn
+        out["F_hist"][j].append(np.array(Fn, dtype=float).tobytes())
+    if buf is not None and buf.tobytes() != buf_keep.tobytes():
+        out["faults"].append(f"[{name}] the position array handed out by the caller's pathline callable was modified in place")
+    return out
+
+
+def interleave_probe(case, schedules=SCHEDULES, stats=None):
+    """C08's interleaving / no-hidden-state / identical-twins clauses on one case; returns (messages, every texture evolved?)"""
+    msgs = []
+    ref = il_run(case, "alone", stats)
+    if ref["error"]:
+        return [ref["error"]], False
+    msgs += ref["faults"]
+    evolved = all(len(m.orientations) == case["nsteps"] + 1
+                  and np.asarray(m.orientations[-1]).tobytes() != np.asarray(m.orientations[0]).tobytes() for m in ref["minerals"])
+    names = ("olivine", "enstatite")
+    for name in schedules:
+        run_ = il_run(case, name, stats)
+        if run_["error"]:
+            msgs.append(run_["error"])
+            continue
+        msgs += run_["faults"]
+        for j, (ma, mb) in enumerate(zip(ref["minerals"], run_["minerals"])):
+            sa, sb = snap_bytes(ma), snap_bytes(mb)
+            who = (f"mineral #{j} ({names[case['minerals'][j]['sc']['pair'][0]]}, regime {case['minerals'][j]['sc']['regime']}"
+                   + (", velocity-gradient callable replaced between steps" if case["minerals"][j].get("alt") else "") + ")")
+            what = (f"of {len(case['minerals'])} minerals on the same evaluation points ({case['points']}, one time grid) with different "
+                    f"velocity gradients, calls merged as [{name}]")
+            if sa != sb:
+                k = next((i for i, (a, b) in enumerate(zip(sa, sb)) if a != b), min(len(sa), len(sb)))
+                msgs.append(f"{who} {what}: textures differ from the identically built mineral updated alone from snapshot {k} on "
+                            f"(max difference {tex_diff(ma, mb):.3e}): interleaving updates of other minerals changed the outcome")
+            elif ref["F_hist"][j] != run_["F_hist"][j]:
+                msgs.append(f"{who} {what}: a returned deformation gradient differs from the identically built mineral updated alone")
+    return msgs, evolved
+
+
+def interleave_plan(rng, tier, only_coincident=False):
+    """(case, schedules) of the tier.  Per repetition one case per point family + one single mineral with a replaced callable,
+    phases / time origins / replaced callables rotated by the seed and the repetition; every schedule.  Quick: 3 repetitions
+    (18 cases, ~600 update calls of 3-9 grains, ~2 s), thorough: 24."""
+    plan = []
+    reps = 3 if tier == "quick" else 24
+    fams = list(COINCIDENT_POINTS if only_coincident else POINT_FAMILIES)
+    for r in range(reps):
+        o = int(rng.integers(6))
+        for i, fam in enumerate(fams):
+            J = 2 + (i + o) % 2
+            K = 2 + (i + o + r) % 2 if tier == "quick" else int(rng.integers(2, 5))
+            replaced = ((i + o) % J,) if (i + o + r) % 3 == 0 else ()
+            case = interleave_case(rng, fam, J, K, T_STARTS[(i + o + r) % 3], replaced=replaced,
+                                   same_phase=(None, True, False)[(i + o) % 3])
+            plan.append((case, SCHEDULES))
+        # ONE mineral whose velocity-gradient callable is replaced between consecutive steps: alone vs separated by unrelated updates
+        case = interleave_case(rng, fams[(o + r) % 4], 1, 3, T_STARTS[(o + r + 1) % 3], replaced=(0,))
+        plan.append((case, ("spaced",)))
+    return plan
+
+
 def boundary_cells(rng, tier):
     """structured sweep: every accepted regime x both phases x fractions exactly 0 and exactly 1 (+ one grid value in
     the cells the random stream never visits: olivine / frictional_yielding, enstatite / matrix_dislocation, the null
@@ -465,7 +689,12 @@ def run(chk):
                        "update_all over several minerals of the SAME phase (two olivine populations + enstatite + a twin, two list orders: each bit-identical to the mineral updated alone); "
                        "aliasing stream (two minerals from the same initial arrays, shared params dict and starting F, returned F modified in place, decoy minerals "
                        "with other fractions interleaved); batch vs single calls of update_all; degenerate stream (surplus fractions, duplicated phase, own phase "
-                       "missing, too few fractions: must raise without touching the history or poisoning later updates)")
+                       "missing, too few fractions: must raise without touching the history or poisoning later updates); "
+                       "interleave stream: 1-3 independent minerals (same / different phase, own params, flow family and rate, callable replaced "
+                       "between steps) on ONE pathline (stationary, origin, one position array object, common moving pathline; control: distinct "
+                       "positions) and ONE exact time grid (start 0 / negative / positive), call sequences merged round-robin / reversed / "
+                       "randomly / separated by unrelated updates: every mineral bit-identical (snapshots, returned F) to its identically "
+                       "built twin updated alone; module-state digest (harness/purity.py) around the stream, a change extends the search")
     bad, mon = [], []          # mon: (probe kind, scenario, phi, message, extra replay fields)
     rng = np.random.default_rng(chk.seed)
     rng2 = np.random.default_rng([chk.seed, 0xC08])      # the families added later: independent stream, same seed
@@ -547,6 +776,52 @@ def run(chk):
                     mon += [("same_phase_bulk", sco, phi, m, {}) for m in same_phase_bulk_probe(sco, phi)]
                     count(probes_h, "same_phase_bulk")
                 count(hist, "bulk:" + ("interior" if 0 < phi < 1 else f"boundary-{phi:g}"))
+            # interleaved histories of independent minerals on shared evaluation points (own stream; the draws above are unchanged)
+            import purity
+            rng3 = np.random.default_rng([chk.seed, 0xC08F])
+            il_h = chk.cov.setdefault("interleave_histogram", {})
+            il_stats = chk.cov.setdefault("interleave_calls", {})
+            state = purity.ModuleStateGuard("C08")       # module-level state of pydrex.minerals / pydrex.core around this stream
+            state.start()
+            il_t0 = time.time()
+
+            def run_interleave(plan, tag):
+                found = 0
+                for case, sch in plan:
+                    msgs, evolved = interleave_probe(case, sch, il_stats)
+                    mn0 = case["minerals"][0]
+                    mon.extend(("interleave", mn0["sc"], mn0["phi"], m, {"interleave_case": c01.encode_sc(case), "schedules": list(sch)})
+                               for m in msgs)
+                    found += len(msgs)
+                    count(probes_h, "interleave" + tag)
+                    count(il_h, "points:" + case["points"])
+                    count(il_h, f"minerals:{len(case['minerals'])}")
+                    count(il_h, f"steps:{case['nsteps']}")
+                    count(il_h, "t_start:" + case["t_start_kind"])
+                    phs = sorted({mn["sc"]["pair"][0] for mn in case["minerals"]})
+                    count(il_h, "phases:" + ("single mineral" if len(case["minerals"]) == 1 else
+                                             "both" if len(phs) == 2 else ("olivine only", "enstatite only")[phs[0]]))
+                    if any(mn.get("alt") for mn in case["minerals"]):
+                        count(il_h, "callable replaced between steps")
+                    for name in sch:
+                        count(il_h, "schedule:" + name)
+                        chk.note_case(("interleave", case["schedule_seed"], name), nontrivial=evolved,
+                                      sample={"kind": "interleave", "points": case["points"], "schedule": name, "dt": case["dt"],
+                                              "t_start": case["t_start"], "minerals": [[mn["sc"]["pair"][0], mn["sc"]["regime"],
+                                                                                         mn["sc"]["lkind"], mn["sc"]["rate"]]
+                                                                                        for mn in case["minerals"]]})
+                return found
+
+            nfound = run_interleave(interleave_plan(rng3, chk.tier), "")
+            changes = state.changes()
+            chk.cov["interleave_module_state_changes"] = [c["object"] for c in changes]
+            if changes and not nfound:
+                # the anchored modules kept something between calls (harness/purity.py) and the plan above found no history on
+                # which it matters: search on -- only coincident evaluation points, every schedule, fresh draws
+                for _ in range(3):
+                    if run_interleave(interleave_plan(rng3, chk.tier, only_coincident=True), ":after-module-state-change"):
+                        break
+            chk.cov["interleave_wall_s"] = round(time.time() - il_t0, 2)
         chk.cov["max_multiphase_vs_single_difference"] = worst
         chk.cov["traces_validated_against_impl"] = chk.cov["evaluations"]
     chk.cov["disagreements"] = len(bad)
@@ -592,6 +867,11 @@ def replay(d):
             msgs = bulk_probe(sc, phi)
         elif probe == "same_phase_bulk":
             msgs = same_phase_bulk_probe(sc, phi)
+        elif probe == "interleave":
+            case = il_decode(d["interleave_case"])
+            msgs, _ = interleave_probe(case, tuple(d.get("schedules", SCHEDULES)))
+            print(f"C08 replay: {len(case['minerals'])} minerals x {case['nsteps']} steps on shared evaluation points ({case['points']}), "
+                  f"t_start={case['t_start']!r} dt={case['dt']!r}, merged as {d.get('schedules')}")
         else:
             print("unknown probe", probe)
             return 1
